@@ -4,7 +4,7 @@ from hypothesis import strategies as st
 
 ARGSRC = ["1", "'s'", "None", "[1]", "[]", "{'a': 1}", "(1, 'x')", "S.Base()", "S.D1()", "1.5", "True", "[S.Base(), None]", "{}", "{1: 'v'}"]
 KINDS = ["func", "method", "classmethod", "staticmethod", "property", "inherited", "override", "nested", "closure",
-         "wrapped", "innerclass", "lambda", "setprop", "nested_static"]
+         "wrapped", "innerclass", "lambda", "setprop", "nested_static", "localwrap"]
 # resolvability class of each kind (DESIGN 3.4)
 MAY = {"lambda", "setprop", "nested_static"}
 FLAVOUR_OK = {"func", "method", "classmethod", "staticmethod", "inherited", "wrapped", "innerclass"}
@@ -137,6 +137,10 @@ def target(g):
         return f"F{i}", f"F{i}", None
     if kd == "wrapped":
         return f"F{i}", f"F{i}.__wrapped__", None
+    if kd == "localwrap":
+        # a functools.wraps wrapper defined in the traced module, called through a local of the calling frame (a callback):
+        # the wrapper's own call is a call of a resolvable function (its object is a callable local on the stack)
+        return f"_f{i}", f"_f{i}", None
     if kd in ("nested", "closure"):
         return f"F{i}", f"F{i}", None
     if kd == "method":
@@ -160,7 +164,7 @@ def target(g):
 
 def expected_qualname(g):
     i, kd = g["idx"], g["kind"]
-    if kd in ("func", "wrapped", "nested", "closure"):
+    if kd in ("func", "wrapped", "nested", "closure", "localwrap"):
         return f"F{i}"
     if kd == "lambda":
         return "<lambda>"
@@ -175,6 +179,8 @@ def callsite(g, pos_args, kw_args, ind, catch, star=False):
     """inline recorded call of plain-flavoured g; result in _r. With star=True the arguments are *_a, **_k."""
     tgt, fnobj, recv = target(g)
     S = []
+    if g["kind"] == "localwrap":
+        S.append(f"{ind}_f{g['idx']} = F{g['idx']}")
     if recv:
         S.append(f"{ind}_o = {recv}")
         rfirst = "_o" if recv != "K" else "K"
@@ -262,7 +268,14 @@ def render(prog):
     for f in funcs:
         i, kd = f["idx"], f["kind"]
         a = "async " if f["flavour"] == "coro" else ""
-        if kd in ("func", "wrapped"):
+        if kd == "localwrap":
+            top += [f"def _mtv_deco{i}(fn):", "    @S.functools.wraps(fn)", "    def wrapper(*a, **k):", "        _c = S.R.pre(fn, a, k)", "        try:",
+                    "            _r = fn(*a, **k)", "        except BaseException as _e:", "            S.R.exc(_c, _e)", "            raise",
+                    "        S.R.post(_c, _r)", "        return _r", "    return wrapper"]
+            top += [f"@_mtv_deco{i}"] * (1 + f["idx"] % 2)
+            top.append(f"def F{i}({sig_src(f)}){ret_src(f)}:")
+            top += body(f, "    ")
+        elif kd in ("func", "wrapped"):
             if kd == "wrapped":
                 top.append("@S.deco")
             top.append(f"{a}def F{i}({sig_src(f)}){ret_src(f)}:")
